@@ -382,7 +382,7 @@ def oracle_unbalanced(case, impl):
     err = impl.get("ctx", {}).get("err")
     if not err:
         return [f"file {bad} has an unbalanced tag ({case['meta']['op']}) but the run did not fail: {K.outcome_key(impl)}"]
-    if err[0].get("file") != bad:
+    if err[0].get("file") != bad and not (err[0].get("file") is None and K.names_path(err[0].get("msg"), bad)):
         return [f"error does not name the damaged file {bad}: {err[0]}"]
     if impl.get("exit") != 1:
         return ["exit status is not 1"]
@@ -758,8 +758,7 @@ def oracle_fail_closed(case, impl):
         return [f"panic: {impl['panic']}"]
     if ("err" in impl.get("run", {}) or "err" in impl.get("ctx", {})) and impl.get("exit") != 1:
         return ["error outcome but exit status is not 1"]
-    if "err" in impl.get("run", {}) and impl["run"]["err"][0] == "other":
-        return [f"unclassified error: {impl['run'].get('msg')}"]
+    # an error whose wording is not recognised is still an explanatory error (wording is not an observable)
     return []
 
 
